@@ -67,6 +67,42 @@ func (r *RecMetrics) rec(kind, name string, tags []metrics.T) {
 	m[k]++
 	r.Emitted++
 	r.mu.Unlock()
+	if r.inner != nil {
+		// every recorder that forwards to the process-wide Prometheus client also feeds one process-wide table
+		globalMu.Lock()
+		g := globalTable[name]
+		if g == nil {
+			g = map[string]int{}
+			globalTable[name] = g
+		}
+		g[k]++
+		globalMu.Unlock()
+	}
+}
+
+var (
+	globalMu    sync.Mutex
+	globalTable = map[string]map[string]int{}
+)
+
+// GlobalInconsistentMetrics lists metric names that reached the real Prometheus client of this process with more
+// than one (kind, label-name set), from whatever node or recorder.
+func GlobalInconsistentMetrics() []string {
+	globalMu.Lock()
+	defer globalMu.Unlock()
+	var out []string
+	for name, m := range globalTable {
+		if len(m) > 1 {
+			var ks []string
+			for k := range m {
+				ks = append(ks, k)
+			}
+			sort.Strings(ks)
+			out = append(out, fmt.Sprintf("%s: %s", name, strings.Join(ks, " vs ")))
+		}
+	}
+	sort.Strings(out)
+	return out
 }
 
 // GetGrpcServerOption implements metrics.Metrics
